@@ -194,7 +194,7 @@ class LssSwitchSelective(Contract):
                       for i in range(4)])
         confirmed = And(p["answered_"], compare("==", S.byte(p["reply_"], 0), 0x44))
         return And(frames, Implies(Not(p["answered_"]), s.raised(ERR)),
-                   Implies(p["answered_"], And(s.returned, Iff(confirmed, s.ret is True)) if s.returned else False))
+                   Implies(p["answered_"], And(s.returned, Iff(confirmed, S.is_true(s.ret))) if s.returned else False))
 
     ensures = {"four-frames_confirmed-iff-0x44": lambda s: LssSwitchSelective.ok(s)}
 
@@ -215,8 +215,8 @@ class LssFastScanMessage(Contract):
         p = s.pre
         idn, bc, sub, nxt = p["a"]
         yes = And(p["answered_"], compare("==", S.byte(p["reply_"], 0), 0x4F))
-        return And(s.returned, frame_is(s, [0x51] + S.le_bytes(idn, 4) + [bc, sub, nxt]), Iff(yes, s.ret is True),
-                   Or(s.ret is True, s.ret is False))
+        return And(s.returned, frame_is(s, [0x51] + S.le_bytes(idn, 4) + [bc, sub, nxt]), Iff(yes, S.is_true(s.ret)),
+                   S.is_bool(s.ret))
 
     ensures = {"frame_and_true-iff-identify-slave": lambda s: LssFastScanMessage.ok(s)}
 
@@ -235,7 +235,7 @@ def _fs_inv(interp, fr):
     conds = [compare(">=", bc, 0), compare("<=", bc, 32),
              compare("==", binop(">>", binop("^", lid[k], sid[k]), bc), 0),
              compare("==", binop("&", lid[k], binop("-", binop("<<", 1, bc), 1)), 0),
-             compare("==", net.fields["pos"], k), net.fields["config_state"] is False,
+             compare("==", net.fields["pos"], k), S.is_false(net.fields["config_state"]),
              compare("==", fr.locals["lss_next"], k)]
     for j in range(4):
         if j < k:
@@ -286,13 +286,13 @@ class LssFastScan(Contract):
         if not s.returned or not isinstance(s.ret, tuple) or len(s.ret) != 2:
             return False
         if not p["present"]:
-            return s.ret[0] is False and s.ret[1] is None
+            return And(S.is_false(s.ret[0]), s.ret[1] is None)
         found, ids = s.ret
         from pyvc.interp import SList
         if found is not True or not isinstance(ids, SList) or len(ids.items) != 4:
             return False
         return And([compare("==", ids.items[i], p["sid"][i]) for i in range(4)]
-                   + [s.w.get(p["net"], "config_state") is True])
+                   + [S.is_true(s.w.get(p["net"], "config_state"))])
 
     ensures = {"finds-identity-bit-for-bit": lambda s: LssFastScan.ok(s)}
 
